@@ -4,6 +4,7 @@
 set -e
 cd /verif
 b=$1
+if ! git diff --quiet || ! git diff --cached --quiet; then echo "working tree dirty: commit first"; exit 1; fi
 git merge --no-commit --no-ff "$b" >/tmp/merge.out 2>&1 || true
 cat /tmp/merge.out | grep -i conflict || true
 for f in $(git diff --name-only --diff-filter=U); do
